@@ -11,6 +11,23 @@ COMMON_NOTE = ("Trusted base: Coq 8.16.1 kernel + vm_compute (no native_compute,
                "modelled, not verified. ")
 
 CLAIMED = {
+ "C13": dict(
+  text="Axiom-free theorems over Z about a hand model of TriAvg.get_orient_points and ZCW._calc_engine, for EVERY N: the index triples of the two "
+       "comprehensions are exactly the unit cells of the octahedron-face lattice (z_i(z) = z(2N+3-z)/2 proved to be the row offset), every vertex index is "
+       "valid, distinct lattice points have distinct indices, and every point of the face off the grid lines lies in exactly one listed triangle (exact "
+       "cover, any scaling); the ZCW recurrence returns at least the requested number of orientations and every orientation lies in the mode's region "
+       "(exact rational cos(theta), phi). Over the reals: the binned triangle average (tent-to-bin integration, model of TriAvg.average) deposits exactly "
+       "the weight of every triangle in contiguous bins covering its frequencies (telescoping identity; flat triangles as delta functions). Tied to the "
+       "code by EXHAUSTIVE correspondence over the stated range N = 1..40 x 3 modes (triangle sets as signed lattice points == model under the mode's "
+       "sign vectors), ZCW counts/angles for the requested sizes, per-bin tent values on random triangles, and numeric oracles: unit vectors, region, "
+       "|r|^-3 weights, spherical-excess area sum == solid angle of the region, weights summing to one (ZCW, SHREWD).",
+  note="PARTIAL: 'the weighted average of any traceless rank-2 function tends to zero' is exact by symmetry for sphere (and octant with diagonal tensors) "
+       "and only asymptotic for hemisphere/ZCW/SHREWD - no Coq proof (quadrature error analysis); the run measures it (exactly 0 / below 1.2/N / "
+       "shrinking) as supporting evidence. Over an octant the mean of n_x n_y is not zero in any implementation, so the clause is read for traceless "
+       "DIAGONAL tensors there. SHREWD's optimiser is an oracle (only sum w = 1 claimed). Float normalisation and np.unique's merge are judged "
+       "numerically. Defect F-13 (flat triangles lost) found by this check and repaired.",
+  technique="Coq proof (Z: lia/nia, no axioms; Reals: lra/nra/field) of hand models + exhaustive correspondence over the stated TriAvg range + numeric oracles",
+  design="§8 C13"),
  "C14": dict(
   text="(A) All 306 rule strings and the Hall map are REGENERATED from soprano/data/xrd_sel_rules.json / hall_2_no.json into Gallina on every run; the "
        "specification 'not systematically absent under the setting's symmetry operations' (h R = h and h.t non-integer for some operation; operations "
